@@ -854,3 +854,69 @@ Proof.
   replace ((cb - tol <=? b) && (b <=? cb + tol)) with true by (symmetry; apply andb_true_intro; split; apply Z.leb_le; lia).
   cbn [andb px_a]. destruct four; [|reflexivity]. unfold chop_mul. reflexivity.
 Qed.
+
+(* ------------------------------------------------------------------ layer level range check drops nothing *)
+
+(* converse reading of layer_res_ok_member: when a layer without a configured range is skipped by its merged range,
+   none of its members (sources / sub layers) would have rendered the request (same hull hypothesis) *)
+Lemma layer_res_skip_members : forall members hull_ok,
+  (forallb fst members = true -> existsb snd members = true -> hull_ok = true) ->
+  layer_res_ok None members hull_ok = false -> Forall (fun m => snd m = false) members.
+Proof.
+  intros members hull_ok HULL R. apply Forall_forall. intros [h r] I. cbn [snd].
+  destruct r; [|reflexivity].
+  rewrite (layer_res_ok_member members hull_ok h HULL I) in R. discriminate.
+Qed.
+
+(* sources outside their resolution range contribute nothing (WMSSource.get_map raises BlankImage): drawing a layer
+   all of whose sources are outside their range, anywhere in the stack, gives the same list of merged images - and so
+   the same response - as leaving the layer out *)
+Lemma rendered_blank_sources : forall fetch l,
+  Forall (fun s => s_res_ok s = false) l -> rendered fetch l = [].
+Proof.
+  intros fetch l H. induction H as [|s l Hs _ IH]; [reflexivity|].
+  cbn [rendered]. unfold src_blank. rewrite Hs. cbn [negb orb]. exact IH.
+Qed.
+
+Lemma skip_out_of_range_layer : forall fetch n o below srcs above cov,
+  Forall (fun s => s_res_ok s = false) srcs ->
+  merge n o (rendered fetch (below ++ srcs ++ above)) cov = merge n o (rendered fetch (below ++ above)) cov.
+Proof.
+  intros fetch n o below srcs above cov H.
+  rewrite !rendered_app. rewrite (rendered_blank_sources fetch srcs H). reflexivity.
+Qed.
+
+Example skip_out_of_range_layer_nonvacuous :
+  let s := mk_src [1] true false (Some true) None 0 1 [1] 1 1 None None 0 1 in
+  Forall (fun s => s_res_ok s = false) [s] /\ src_blank s = true.
+Proof. split; [repeat constructor|reflexivity]. Qed.
+
+(* ------------------------------------------------------------------ concurrent rendering, picture level *)
+From MP Require Import Pool Pool_proofs.
+
+(* LayerRenderer.render hands the results of ThreadPool.imap (result objects) to LayerMerger.add in the order imap
+   yields them.  `decode` maps a task result to the layer image it carries (None: BlankImage / captured error).
+   Whatever the pool size, the completion order of the upstream requests and the hand-over point, the merged picture is
+   the one of the sequential renderer. *)
+Definition added_layers (decode : val -> option layer) (results : list val) : list layer :=
+  flat_map (fun v => match decode v with Some l => [l] | None => [] end) results.
+
+Lemma concurrent_render_picture : forall pool_size decode n o cov results completion_order split,
+  is_perm completion_order (length results) ->
+  merge n o (added_layers decode (fst (imap pool_size true results completion_order split))) cov =
+  merge n o (added_layers decode results) cov.
+Proof.
+  intros pool_size decode n o cov results arr split P.
+  rewrite (imap_result_objects pool_size results arr split P). reflexivity.
+Qed.
+
+Example concurrent_render_picture_nonvacuous :
+  is_perm [2; 0; 1]%nat (length [Ok 1; Ok 2; Exc 3]) /\
+  fst (imap 2 true [Ok 1; Ok 2; Exc 3] [2; 0; 1]%nat 1) = [Ok 1; Ok 2; Exc 3].
+Proof.
+  split.
+  - split.
+    + repeat constructor; simpl; intuition lia.
+    + intros i. simpl. lia.
+  - vm_compute. reflexivity.
+Qed.
